@@ -31,6 +31,11 @@ pub enum Op {
     DropToi(usize),
     /// allocate and immediately drop `n` TOI handles (moves the allocator's cursor, e.g. a full cycle of a 16-bit space)
     ChurnToi(u32),
+    /// a TOI handle is allocated and then dropped by the UNWINDING of a panic (caught at once: a worker thread that
+    /// dies, a job under catch_unwind); the handle must be released like any other
+    PanicHoldingToi,
+    /// call the read-only accessors (fdt_xml_data, get_objects_in_fdt, nb_objects): they must have no side effect
+    QueryAccessors,
     /// emit the explicit close-session packet
     CloseSession,
 }
@@ -310,6 +315,26 @@ impl Driver {
                 churned = Some(values);
                 r
             }
+            Op::QueryAccessors => {
+                let _ = self.sender.fdt_xml_data(now);
+                let _ = self.sender.get_objects_in_fdt();
+                let _ = self.sender.nb_objects();
+                OpResult::Done
+            }
+            Op::PanicHoldingToi => {
+                struct Expected;
+                let s = &mut self.sender;
+                let r = std::panic::catch_unwind(std::panic::AssertUnwindSafe(|| {
+                    let _h = s.allocate_toi();
+                    std::panic::panic_any(Expected);
+                }));
+                crate::engine::clear_last_panic();
+                if r.is_ok() {
+                    OpResult::Skipped
+                } else {
+                    OpResult::Done
+                }
+            }
             Op::CloseSession => {
                 let bytes = self.sender.read_close_session(now);
                 let poll = self.trace.polls.len();
@@ -330,6 +355,8 @@ impl Driver {
                 Op::AllocToi => "S:alloc",
                 Op::DropToi(_) => "S:droptoi",
                 Op::ChurnToi(_) => "S:churntoi",
+                Op::PanicHoldingToi => "S:panic-holding-toi",
+                Op::QueryAccessors => "S:query",
                 Op::CloseSession => "S:close",
             });
         }
